@@ -1,7 +1,7 @@
 """C03 - render/re-parse round trip and simplify() preserve appearance and are stable."""
 from .. import obs as O
 from .. import sgr_model as M
-from .common import Contract, ansi_values, history, run_cases, tier_sizes, safe_obs, transition_values
+from .common import Contract, ansi_values, history, run_cases, tier_sizes, safe_obs, transition_values, small_scope_values, small_scope_on, stack_values
 
 PROP = 'C03'
 RULE = ('case = (a) one round trip AnsiString(str(s)) of a reachable value with well-formed settings, compared '
@@ -143,6 +143,7 @@ def drive(ctx, mon, tier, only_case=None):
         if case == 0:
             with mon.quiet():
                 vals = list(transition_values(L, rng, ctx.shard, ctx.extra.get('nshards', 1)))
+                vals += list(stack_values(L, rng, ctx.shard, ctx.extra.get('nshards', 1)))
             ctx.extra['n_transition_values'] = len(vals)
             for v in vals:
                 roundtrip_probe(ctx, mon, v)
@@ -150,6 +151,15 @@ def drive(ctx, mon, tier, only_case=None):
                     v.simplify()
                 except Exception:
                     ctx.aborted['simplify-raised'] += 1
+            return
+        if case == 1:
+            m = small_scope_on(ctx, tier)
+            with mon.quiet():
+                vals = [v for v, _ in small_scope_values(L, m, ctx.shard, ctx.extra.get('nshards', 1))]
+            ctx.extra['n_small_scope_values'] = len(vals)
+            for v in vals:
+                roundtrip_probe(ctx, mon, v)
+                v.simplify()
             return
         profile = rng.choice(['wf', 'mixed', 'hostile'])
         history(L, rng, ex, rng.randint(1, sz['nops']), sz['maxlen'], profile, WEIGHTS)
